@@ -576,7 +576,7 @@ pub fn forger_values(w: &World, virtual_nodes: &[(usize, Vec<u8>)], indices: &[u
     values
 }
 
-/// every set of at most `max_claims` positions of the extended range (inside the tree, in the padding
+/// every multiset of at most `max_claims` positions of the extended range (inside the tree, in the padding
 /// area, one level below the leaves), every assignment of alphabet leaves to them, with the forger's path
 pub fn forger_sweep(n: usize, max_claims: usize, node_like: bool, first: usize) -> Report {
     let mut rep = Report::new("exploration", "");
@@ -606,13 +606,14 @@ pub fn forger_sweep(n: usize, max_claims: usize, node_like: bool, first: usize) 
         }
         for i in start..range {
             cur.push(i);
-            rec(i + 1, range, left - 1, cur, out);
+            // positions may repeat: a claim list that states the same position twice is a proof object too
+            rec(i, range, left - 1, cur, out);
             cur.pop();
         }
     }
     if first < range {
         // all position sets whose smallest position is `first`
-        rec(first + 1, range, max_claims - 1, &mut vec![first], &mut sets);
+        rec(first, range, max_claims - 1, &mut vec![first], &mut sets);
     }
     for idx in sets {
         let values = forger_values(&w, &virtual_nodes, &idx);
@@ -638,7 +639,8 @@ pub fn forger_sweep(n: usize, max_claims: usize, node_like: bool, first: usize) 
         let mut choice = vec![0usize; idx.len()];
         loop {
             let case = Case { leaves: choice.iter().enumerate().map(|(p, &c)| options[p][c]).collect(), indices: idx.clone(), values: values.clone() };
-            let all_true = false_statement(&w.committed, &case).is_none();
+            // completeness is only owed to claim lists the generator itself would produce: distinct positions
+            let all_true = false_statement(&w.committed, &case).is_none() && idx.windows(2).all(|p| p[0] < p[1]);
             let v = eval_case(&mut rep, &w, &case, if node_like { "forger's path, node-like committed leaf" } else { "forger's path" }, idx.len() <= 2);
             if all_true && v != Verdict::Accepted {
                 // the forger's path for true claims inside the tree is the honest path
